@@ -18,10 +18,9 @@ ITER_PRINCIPAL = 2          # from this iteration count on the principal eigenve
 ITER_MEAN = 4               # ... and the Gaussian / vMF mean (the first M-steps still carry the start's blur)
 CBMM_MAX_D = 6              # the generated Bingham gradient tables stop at D = 6 (KeyError beyond)
 CBMM_MIN_PERTURBATION = 1e-4  # below: Bingham concentrations > 1e8, normaliser/solver break down (counted, see search)
-# vMFMM on exactly noise-free classes: VonMisesFisherTrainer._fit gets r_bar = 1 + 1 ulp, (r D - r^3)/(1 - r^2) < 0 and
-# the clip returns min_concentration instead of max_concentration (reported defect).  Until it is fixed / listed the
-# case is explored and counted; set to True to have it judged (key c03.noise_free_fixed_point:misranked:vmfmm).
-JUDGE_VMFMM_NOISE_FREE = False
+# vMFMM on exactly noise-free classes exposed a defect of VonMisesFisherTrainer._fit (r_bar = 1 + 1 ulp made the
+# concentration negative -> clipped to min_concentration); fixed in /repo by ed19db2.  Perturbation-0 scenes are judged
+# by an oracle of their own (key c03.noise_free_fixed_point:misranked:vmfmm) so that a revert is detected.
 
 
 # ----------------------------------------------------------------------------- correspondence
@@ -38,7 +37,10 @@ def _reference_agrees(family, y, init, iterations, post, labels):
         ref_post, ref_mu = eu.ref_gmm(y, init, iterations, ctype)
     except Exception:
         return False
-    return bool(np.all(np.isfinite(ref_post)) and np.max(np.abs(ref_post - post)) <= 1e-6)
+    # class covariances of near-noise-free classes have condition numbers up to 1e12: the two implementations agree
+    # to ~1e-5 only; what identifies the deviation as EM's own is the same winner for EVERY observation
+    return bool(np.all(np.isfinite(ref_post)) and np.array_equal(np.argmax(ref_post, axis=0), np.argmax(post, axis=0))
+                and np.max(np.abs(ref_post - post)) <= 1e-3)
 
 
 @oracle
@@ -184,14 +186,6 @@ def search(ctx):
                     ctx.count(f'cbmm-below-perturbation-floor:{out}')
                     continue
             orc = stable_fixed_point if meta['level'] > 0 else noise_free_fixed_point
-            if family == 'vmfmm' and meta['level'] == 0 and not JUDGE_VMFMM_NOISE_FREE:
-                try:
-                    res = orc(**case)
-                    out = 'held' if res is None else (res.tag if isinstance(res, Fail) else 'skip')
-                except Exception as ex:  # noqa
-                    out = 'raised-' + type(ex).__name__
-                ctx.count(f'vmfmm-noise-free(counted, reported defect):{out}')
-                continue
             held = ctx.run(orc, **case)
             ctx.count(f'search-family:{family}')
             if i == 0 and family in ('cacgmm', 'gmm-full', 'vmfcacgmm'):
